@@ -14,6 +14,7 @@ func init() {
 			c.EntryAlignment("C01", s, "att")
 			c.StateStoreDiscipline("C01", s, "att")
 			c.RulerLocking("C01")
+			c.OneInstance("C01", "locker", "ruler")
 			c.LockerInternals("C15") // holding the key's lock means holding it: Lock returns only with the key's one mutex acquired
 			c.RulerKeyAgreement("C01")
 			c.RulerPositions("C01")
@@ -24,7 +25,7 @@ func init() {
 			c.SyncOption("C03")
 			c.SameStore("C10") // incl. C03.O7: the database directory does not depend on the working directory, so a restart finds the same records
 			c.WhoWrites("C03")
-			c.DomainRules("C05") // slashable objects are signed only through the protected endpoints
+			c.DomainRules("C05")   // slashable objects are signed only through the protected endpoints
 			c.ForkJoinRules("C03") // rule evaluation finishes (and records) before RunRules returns and the key locks are released
 			c.BadgerBufferDiscipline("C11")
 		},
